@@ -272,6 +272,9 @@ class Array:
         argv = [self.bin, "-c", conf or self.conf_path()] + (base_flags if base_flags is not None else self.BASE_FLAGS)
         if hashflag and self.conf.hash_kind in ("murmur3", "spooky2"):
             argv.append("--test-force-" + self.conf.hash_kind)
+        # the depth of the I/O ring does not change any result (C13): vary it from command to command
+        if getattr(self, "io_vary", False) and cmd in ("sync", "scrub", "check", "fix") and "--test-io-cache" not in [str(x) for x in args]:
+            argv += ["--test-io-cache", str([1, 3, 4, 8, 128][(self.seed + self.ncmd) % 5])]
         argv += ["-l", log, cmd] + [str(a) for a in args]
         env = dict(os.environ)
         env["LD_PRELOAD"] = self.shim
